@@ -864,6 +864,11 @@ Dump JSON serializes and writes the Metablock on which it was called to the
 passed path.  It returns an error if JSON serialization or writing fails.
 */
 func (mb *Metablock) Dump(path string) error {
+	// an unsigned Metablock is written with an empty signature list, not
+	// null, so that it can be loaded back
+	if mb.Signatures == nil {
+		mb = &Metablock{Signed: mb.Signed, Signatures: []Signature{}}
+	}
 	// JSON encode Metablock formatted with newlines and indentation
 	// TODO: parametrize format
 	jsonBytes, err := json.MarshalIndent(mb, "", "  ")
